@@ -60,6 +60,14 @@ func (h *VHist) vApplyImpl(op VOp) error {
 	case "rename":
 		_, err := h.W.Dsm.UpdateDataset(h.DsName(op.DS), &UpdateDatasetConfig{ID: h.DsName(op.To)})
 		return err
+	case "use":
+		obs := newNsObserved()
+		if err := h.nsUse(op, obs); err != nil {
+			return err
+		}
+		b, _ := json.Marshal(obs)
+		h.LastAck = string(b)
+		return nil
 	case "gc":
 		return NewGarbageCollector(h.W.Store, h.W.Env).Cleandeleted()
 	case "restart":
@@ -156,11 +164,12 @@ func vCrashChild(dir string, spec CrashSpec) {
 	}
 	for i, op := range spec.Hist {
 		h = &VHist{W: w, Tag: h.Tag, M: h.M} // world may have been restarted
+		h.LastAck = ""
 		if err := h.vApplyImpl(op); err != nil {
 			fmt.Fprintf(acks, "err %d %s\n", i, strings.ReplaceAll(err.Error(), "\n", " "))
 			continue
 		}
-		fmt.Fprintf(acks, "ack %d\n", i)
+		fmt.Fprintf(acks, "ack %d %s\n", i, h.LastAck)
 		cnt.Acks++
 	}
 	if spec.Kill.Commit == cnt.Commits+1 {
@@ -179,6 +188,7 @@ type CrashResult struct {
 	Count     *CrashCount        `json:"count,omitempty"`
 	Acked     int                `json:"acked"`
 	Died      bool               `json:"died"`
+	AckData   []string           `json:"-"`
 	Key       string             `json:"key"`     // canonical recovered state
 	Matched   int                `json:"matched"` // which model prefix matched (number of applied ops), -1 none
 	Viol      []engine.Violation `json:"viol,omitempty"`
@@ -222,6 +232,9 @@ func vRunCrashTask(spec CrashSpec, inspect func(w *VWorld, h *VHist, spec CrashS
 		for _, l := range strings.Split(string(b), "\n") {
 			if strings.HasPrefix(l, "ack ") {
 				res.Acked++
+				if f := strings.SplitN(l, " ", 3); len(f) == 3 && f[2] != "" {
+					res.AckData = append(res.AckData, f[2])
+				}
 			}
 		}
 	}
